@@ -195,6 +195,9 @@ class Sim:
         self.wsd._server_started = True
         self.msg_counter = 0
         self.last_bytes = None
+        self.delivered = []         # every datagram delivered so far (for repetitions of older messages)
+        self.callback_mode = None
+        self.callback_calls = 0
         # reference model
         self.remote = {}      # epr -> {'version': v, 'candidates': [announcement dicts of that version]}
         self.local = {}
@@ -237,6 +240,8 @@ class Sim:
         self.reader._read_queue = _ScriptedQueue(self.reader, [(PEER, data)])
         self.reader._run_q_read()
         self.last_bytes = data
+        if not self.delivered or self.delivered[-1] != data:
+            self.delivered.append(data)
 
     # -- events ---------------------------------------------------------------------------
     def event(self, ev):
@@ -299,16 +304,32 @@ class Sim:
             if ev[1] in self.local:
                 expect_out.append(('ResolveMatches', ev[1]))
         elif kind == 'repeat':
-            if self.last_bytes is None:
+            k = ev[1] if len(ev) > 1 else 1       # k = 1: the last datagram again, k = 2: the one before it, ...
+            if len(self.delivered) < k:
                 return 'disabled', []
-            self.deliver(self.last_bytes)   # same MessageID again: must cause no action at all
+            calls = self.callback_calls
+            data = self.delivered[-k]
+            self.deliver(data)   # same MessageID again: must cause no action at all
             expect_out = []
             problems = []
             if len(self.stub.out) != n_out:
                 problems.append(f'a repeated MessageID caused {len(self.stub.out) - n_out} outgoing message(s)')
             if self.table() != before:
                 problems.append('a repeated MessageID changed the remote service table')
+            if self.callback_calls != calls:
+                problems.append('a repeated MessageID was handed to the application callback again')
             return 'ok', problems + self.check_table()
+        elif kind == 'callback':
+            # the application's hello callback: absent, well-behaved, or raising (application code is a fault source the
+            # discovery node has to survive: the message stays "seen")
+            self.callback_mode = ev[1]
+
+            def cb(addr_from, service):  # noqa: ARG001
+                self.callback_calls += 1
+                if self.callback_mode == 'raises':
+                    raise RuntimeError('application callback failed')
+            self.wsd.set_remote_service_hello_callback(cb if ev[1] != 'none' else None)
+            return 'ok', self.check_table()
         elif kind == 'prefill':
             # fill the id memory through the real reader with n foreign, otherwise irrelevant datagrams
             payload = wsd_types.ResolveType()
@@ -398,7 +419,7 @@ def alphabet(quick):
         evs.append((kind, 'A', 3, 'full', False))
     if quick:
         evs += [('hello', 'B', 1, 'full', True), ('pmatch', 'B', 2, 'full', True)]
-    evs += [('bye', 'A'), ('bye', 'B'), ('repeat',), ('publish', 'A'), ('publish', 'B'), ('clear', 'A'),
+    evs += [('bye', 'A'), ('bye', 'B'), ('repeat',), ('repeat', 2), ('callback', 'raises'), ('callback', 'ok'), ('publish', 'A'), ('publish', 'B'), ('clear', 'A'),
             ('probe', None, None, None), ('probe', ['T1'], None, None), ('probe', ['T9'], None, None),
             ('probe', ['T1'], 'http://A.B/A', None), ('probe', None, 'http://a.b/B/x/y', None),
             ('probe', None, 'http://a.b/A/x', 'http://docs.oasis-open.org/ws-dd/ns/discovery/2009/01/strcmp0'),
@@ -466,6 +487,12 @@ def run(ctx):
         jobs += hist.sequences(core, depth)
     else:
         jobs += hist.sequences(evs, depth)
+    # application callback that raises / behaves: every announcement, one further event, then the announcement's datagram
+    # again (its id is still remembered: nothing may happen, whatever the callback did the first time)
+    ann = [e for e in evs if e[0] in ('hello', 'pmatch', 'rmatch')]
+    second = [e for e in evs if e[0] in ('bye', 'hello', 'probe') and (len(e) < 4 or e[3] == 'full')]
+    for mode in ('raises', 'ok'):
+        jobs += [[('callback', mode), a, b, ('repeat', 2)] for a in ann for b in second]
     # the same with a full id memory: every event followed by a repetition of its datagram
     maxlen = 200
     for n in (maxlen - 1, maxlen, maxlen + 5):
